@@ -10,6 +10,7 @@ import ALV.Lemmas.C19Real
 import ALV.Lemmas.C19Resample
 import ALV.Lemmas.C19TableOps
 import ALV.Lemmas.C19Obj
+import ALV.Lemmas.C19Float
 import Mathlib.Tactic.NormNum
 import ALV.Common.Audit
 
@@ -439,6 +440,89 @@ example : histModel (fun c : Rat => c) { lists := [], objs := [], oscs := [] }
       [.newList [0, 10], .new 0 1, .setTableUnsized 0, .table 0, .len 0]
     = [.ref 0, .ref 0, .err "TypeError", .table [0, 10] 1, .nat 2] := by
   decide +kernel
+
+
+/-! ## the float regime: operation-generic generators
+
+`ALV/Model/C19Float.lean` writes the generators once more over a record `NumOps α` of the number
+operations (`+ - * / % ==0 < int() ceil isinf`, the raising ones `Except`-valued).  The driver runs
+them on IEEE binary64 (`floatOps`) and predicts the float outputs of the real code bit for bit;
+here: (a) over the exact operations they are the proved model / the specification, (b) for ANY
+operations every output of `modulo_counter` is a double reduction, (c) Python's float `%` — C
+`fmod`, exact, then ONE rounded addition to move the result to the sign of the divisor — lands in
+the closed range `[0, m]` once and in `[0, m)` twice, for any monotone rounding, hence (d) the
+range contract of the counter for any such float-like number type. -/
+
+/-- **C19.float.1** over the exact operations the operation-generic `modulo_counter` is the model
+(all eight branches, `step == 0` shortcuts, both batched fast paths) and raises nothing: every
+theorem above speaks about it. -/
+theorem generic_counter_is_model (A M S : Arg K) (n : Nat) :
+    mcG fieldOps A M S n = (moduloCounter A M S n, none) := mcG_field A M S n
+
+/-- **C19.float.2** whatever the number operations (IEEE floats included): every output of every
+path of `modulo_counter` is `y % m % m` for some `y` and a modulo `m` delivered by the `modulo`
+argument.  (A path that reduces only once is not this code.) -/
+theorem counter_outputs_double_reduced {α : Type} (o : NumOps α) (A M S : Arg α) (n : Nat) :
+    ∀ x ∈ (mcG o A M S n).1, ∃ y, ∃ m ∈ Arg.vals M, mod2G o y m = .ok x := mcG_double o A M S n
+
+/-- **C19.float.3** one float reduction `a % m`, `m > 0`, with any monotone rounding that fixes `0`
+and `m`: the CLOSED range `[0, m]` … -/
+theorem float_mod_closed_range (rnd : K → K) (mono : Monotone rnd) (a m : K) (hm : 0 < m)
+    (h0 : rnd 0 = 0) (hmm : rnd m = m) : 0 ≤ fmodR rnd a m ∧ fmodR rnd a m ≤ m :=
+  fmodR_closed_range rnd mono a m hm h0 hmm
+
+/-- **C19.float.4** … and the double reduction `a % m % m` that the code writes everywhere: `[0, m)`. -/
+theorem float_mod_double_range (rnd : K → K) (mono : Monotone rnd) (a m : K) (hm : 0 < m)
+    (h0 : rnd 0 = 0) (hmm : rnd m = m) :
+    0 ≤ fmodR rnd (fmodR rnd a m) m ∧ fmodR rnd (fmodR rnd a m) m < m :=
+  fmodR_double_range rnd mono a m hm h0 hmm
+
+/-- **C19.float.5** without rounding Python's float `%` is the floored modulo of the exact model. -/
+theorem float_mod_exact (a m : K) (hm : 0 < m) : fmodR id a m = fmod a m := fmodR_id a m hm
+
+/-- **C19.float.6** the range contract for any float-like number type: if `%` is Python's float
+`%` with a monotone rounding (all OTHER operations arbitrary — rounded sums, products, …), then
+every output of `modulo_counter(start, m, step)`, `m > 0` a number, numbers or streams for the
+other two, plain or batched path, lies in `[0, m)`. -/
+theorem counter_range_any_rounding (o : NumOps K) (rnd : K → K) (mono : Monotone rnd) (m : K)
+    (hm : 0 < m) (h0 : rnd 0 = 0) (hmm : rnd m = m) (hmod : ∀ a, o.mod a m = .ok (fmodR rnd a m))
+    (A S : Arg K) (n : Nat) : ∀ x ∈ (mcG o A (.num m) S n).1, 0 ≤ x ∧ x < m := by
+  intro x hx
+  obtain ⟨y, m', hm', e⟩ := mcG_double o A (.num m) S n x hx
+  simp only [Arg.vals, List.mem_singleton] at hm'
+  subst hm'
+  simp only [mod2G, hmod, Except.ok.injEq] at e
+  rw [← e]
+  exact fmodR_double_range rnd mono y m' hm h0 hmm
+
+/-- **C19.float.7** `line` as coded today (an empty line needs no slope) over the exact operations
+is the specification for EVERY duration, `dur - finish = 0` included (C19.line.2 is repaired). -/
+theorem generic_line_eq_spec (dur b e : K) (fin : Bool) (n : Nat) :
+    lineG fieldOps dur b e fin n = ((lineSpec dur b e fin).take n, none) := lineG_field dur b e fin n
+
+/-- **C19.float.8** `ones` / `zeros` / `impulse`, operation-generic, over the exact operations. -/
+theorem generic_const_eq_spec (v : K) (dur : Option K) (n : Nat) :
+    constG fieldOps v dur n = (constSpec v dur n, none) := constG_field v dur n
+
+theorem generic_impulse_eq_spec {β : Type} (dur : Option K) (one zero : β) (n : Nat) :
+    impulseG fieldOps dur one zero n = (impulseSpec dur one zero n, none) := by
+  rw [impulseG_field, impulse_eq]
+
+-- the closed end IS reached by one reduction: a tiny negative value rounds up to the modulo …
+example : fmodR rndQuarter (-1/100 : Rat) 5 = 5 := by decide +kernel
+-- … the second reduction brings it back, and the exact `%` never gets there
+example : fmodR rndQuarter (fmodR rndQuarter (-1/100 : Rat) 5) 5 = 0 := by decide +kernel
+example : fmodR id (-1/100 : Rat) 5 = 499/100 ∧ fmod (-1/100 : Rat) 5 = 499/100 := by decide +kernel
+-- the generic counter on exact rationals (fast path, batch boundary crossed)
+example : mcG (fieldOps : NumOps Rat) (.num 1) (.num 5) (.num 2) 6 = ([1, 3, 0, 2, 4, 1], none) := by
+  rw [mcG_field]; decide +kernel
+example : lineG (fieldOps : NumOps Rat) 0 3 7 false 5 = ([], none) ∧
+    lineG (fieldOps : NumOps Rat) 1 3 7 true 5 = ([3], none) := by decide +kernel
+
+-- PENDING (not proved here): the mirror image of C19.float.3/4/6 for a negative modulo
+def float_mod_double_range_neg_PENDING : Prop :=
+  ∀ (rnd : K → K), Monotone rnd → ∀ (a m : K), m < 0 → rnd 0 = 0 → rnd m = m →
+    m < fmodR rnd (fmodR rnd a m) m ∧ fmodR rnd (fmodR rnd a m) m ≤ 0
 
 end ALV.Props.C19
 
